@@ -8,6 +8,21 @@ written bytes are cut into delivered segments, how many bytes a `read(n)` return
 blocks, connection resets.  No threads, no sockets: the server runs synchronously inside
 the client's first read of a response.
 
+Loop-back server for other worlds (C03/C32):
+    ww = wiresim.WireWorld(sim, get_transport(store_url), server="pipe"|"socket",
+                           server_read="exact"|"atmost", client_read="atmost"|"exact"|"greedy",
+                           strict=False, seg={"m": "hot", "ph": 0.6, "sh": True, "s": seed},
+                           resets=[{"req": k, "kind": "send"|"eof_before"|"eof_after", "write": j}])
+    t = wiresim.loopback_transport(ww)          # RemoteTransport("bzr://sim/") over LoopbackMedium
+    b = ControlDir.open_from_transport(t.clone("br")).open_branch()   # RemoteBzrDir / RemoteBranch
+`resets` are consumed as the k-th request (0-based, counted over reconnections) is sent:
+ConnectionResetError on its j-th write, or EOF on the first read of its response before
+/ after the server executed it; the client's own retry logic then reconnects and gets
+fresh pipes and a fresh server-side medium on the same backing transport.
+`sim.faults_fired` counts reset_send / reset_eof_before / reset_eof_after; `ww.nreq`,
+`ww.connections[i].c2s/.s2c` (SimPipe: msgs, rpos, in_flight()) are there for oracles.
+Call `wiresim.warm()` (or `install()`) once per process first.
+
 Layers (each usable alone):
   SimPipe                 one direction of a connection; knows message boundaries
   WireWorld / Connection  two pipes + one real server-side medium on a backing transport
